@@ -46,7 +46,7 @@ def run(unit_dir, repo, baseline_failed, rlimit=None):
             new = [o for o in failed if o not in baseline_failed]
             if r['status'] == 'violation' and new:
                 res.append(dict(m, outcome='rejected', detail=', '.join(new[:4])))
-            elif r['status'] == 'undecided':
+            elif r['status'] == 'undecided' or r.get('soft_undecided'):
                 res.append(dict(m, outcome='undecided', detail=r.get('reason', '')[:200]))
             else:
                 res.append(dict(m, outcome='ACCEPTED', detail='the unit still verifies with this edit: the contract does not pin this behaviour down'))
